@@ -694,7 +694,14 @@ class StyleProperties:
 
     @classmethod
     def from_model(cls, xml_element, model_value: float):
-      xml_element.set(f"{{{cls.ns}}}{cls.local_name}", f"{model_value}%")
+      value = f"{model_value}"
+
+      # TTML lengths have no exponent notation
+
+      if "e" in value.lower():
+        value = utils.format_number(model_value)
+
+      xml_element.set(f"{{{cls.ns}}}{cls.local_name}", f"{value}%")
 
 
   class ShowBackground(StyleProperty):
